@@ -330,8 +330,8 @@ func checkC02(c *Ctx) {
 			continue
 		}
 		nPer++
-		c.R.Check(lr.scanner == nil && lr.readerOK, "R-unbounded-frames", "per-call SSE reader "+fname(lr.fn), c.Pos(lr.fn.Pos()),
-			"lines are read with bufio.Reader (no length limit)",
+		c.R.Check((lr.scanner == nil && lr.readerOK) || (lr.scanner != nil && !lr.limited), "R-unbounded-frames", "per-call SSE reader "+fname(lr.fn), c.Pos(lr.fn.Pos()),
+			"lines are read without a practical length limit (bufio.Reader, or a Scanner whose limit is at least 1 GiB)",
 			sprintf("%s reads the answer's SSE stream with a bufio.Scanner: a result whose single data line exceeds the scanner's token limit makes the call fail instead of returning what the handler produced", fname(lr.fn)))
 	}
 	c.R.Min("R-unbounded-frames", 1)
